@@ -241,7 +241,11 @@ void BinaryFileReader::read_faces(Decoder &reader, const TopoChunkHeader &header
                                    valence,
                                    read_heh);
         if (!success) break;
-        mesh_->add_face(std::move(halfedges), options_.topology_check);
+        if (!mesh_->add_face(std::move(halfedges), options_.topology_check).is_valid()) {
+            state_ = ReadState::ErrorInvalidFile;
+            error_msg_ = "TOPO chunk: face " + std::to_string(header.span.first + i) + " was rejected by the mesh";
+            return;
+        }
     };
 
     if (state_ == ReadState::ReadingChunks) {
@@ -288,7 +292,11 @@ void BinaryFileReader::read_cells(Decoder &reader, const TopoChunkHeader &header
                                    valence,
                                    read_hfh);
         if (!success) break;
-        mesh_->add_cell(std::move(halffaces), options_.topology_check);
+        if (!mesh_->add_cell(std::move(halffaces), options_.topology_check).is_valid()) {
+            state_ = ReadState::ErrorInvalidFile;
+            error_msg_ = "TOPO chunk: cell " + std::to_string(header.span.first + i) + " was rejected by the mesh";
+            return;
+        }
     };
 
     if (state_ == ReadState::ReadingChunks) {
